@@ -75,11 +75,8 @@ def socket_sweep(ctx):
         ctx.extra['sock_graph_%s_%s' % typ] = stats
         for p in script['paths']:
             scs.append(sock_scenario(p, typ))
-    sp = os.path.join(ctx.work, 'sock-scen.json')
-    tp = os.path.join(ctx.work, 'sock-trace.ndjson')
-    vlib.write_json(sp, [dict(nics=x['nics'], ops=[{k: v for k, v in o.items() if not k.startswith('_')} for o in x['ops']]) for x in scs])
-    ctx.run([drv, 'run', sp, tp], timeout=3000)
-    segs = vlib.split_segments(vlib.read_ndjson(tp))
+    segs = vlib.run_scenarios(ctx, drv, [dict(nics=x['nics'], ops=[{k: v for k, v in o.items() if not k.startswith('_')} for o in x['ops']]) for x in scs],
+                              'c10sock', what='the stack (socket-level bind / connect / close)')
     if len(segs) != len(scs):
         raise vlib.Inconclusive('sockd produced %d segments for %d scenarios' % (len(segs), len(scs)))
     tc = cfg(spec='TSpec', constraint='HWMark', postcondition='Accepted')
